@@ -145,6 +145,7 @@ inductive PExpr where
   | beginKw (v : Nat) | endKw
   | dirScope (e : PExpr)
   | kwScope (v : Nat) (e : PExpr)
+  | kwGuard (w : List Nat)
   | ifDir (a b : PExpr)
   | nestl (first item : PExpr) (wraps : List Nat) (outer : Nat)
   | shaped (stmts : List PExpr) (res : Shape)
@@ -164,6 +165,9 @@ structure Grammar where
   kwDefault : Nat
   /-- capacity of the packrat storage (`nom_packrat::storage!(AnyNode, bool, 1024)`); fixed per thread, never changed -/
   memoCap : Option Nat := some 1024
+  /-- `is_later_keyword`: the table every word is compared with (1800-2017) and the versions that are exempt -/
+  kwLatest : Nat := 7
+  kwNoGuard : List Nat := [7, 8]
 deriving Inhabited
 
 def Grammar.prod (g : Grammar) (f : Nat) : Prod :=
@@ -246,6 +250,14 @@ def isKeyword (g : Grammar) (inp : Input) (vers : List Nat) (ts : List Tree) : B
     let tbl := g.kwTables.getD (vers.headD g.kwDefault) []
     tbl.contains (sliceBytes inp o l)
   | _ => false
+
+/-- `is_later_keyword(t)`: inside a `begin_keywords region of an older standard, is `w` reserved only by a later one -/
+def isLaterKeyword (g : Grammar) (vers : List Nat) (w : List Nat) : Bool :=
+  match vers with
+  | [] => false
+  | v :: _ =>
+    if g.kwNoGuard.contains v then false
+    else (g.kwTables.getD g.kwLatest []).contains w && !(g.kwTables.getD v []).contains w
 
 def orErr (best : Option Nat) (ep : Nat) : Option Nat :=
   match best with
@@ -339,6 +351,7 @@ def eval (g : Grammar) (inp : Input) : Nat → PExpr → Nat → Rec → PState 
     | .kwScope v e =>
       match eval g inp fuel e pos r { st with vers := v :: st.vers } with
       | (o, st') => (o, { st' with vers := st'.vers.tail })
+    | .kwGuard w => if isLaterKeyword g st.vers w then (.err pos, st) else (.ok pos r [], st)
     | .ifDir a b => if st.dir > 0 then eval g inp fuel a pos r st else eval g inp fuel b pos r st
     | .nestl first item wraps outer =>
       match eval g inp fuel first pos r st with
